@@ -98,6 +98,8 @@ def _run(case):
     plug = None
     if case["clock"] == "simple":
         cfg["time"] = {"start": case["start"], "end": case["stop"], "step_size": case["step"]}
+        if case.get("std"):
+            cfg["time"]["standard_step_size"] = case["std"]
         plug = {"required": {"clock": {"controller": "vivarium.framework.time.SimpleClock",
                                        "builder_interface": "vivarium.framework.time.TimeInterface"}}}
     else:
@@ -106,6 +108,8 @@ def _run(case):
         num, den = case["step"]
         cfg["time"] = {"start": {"year": y0, "month": m0, "day": d0}, "end": {"year": y1, "month": m1, "day": d1},
                        "step_size": num / den if den != 1 else num}
+        if case.get("std"):
+            cfg["time"]["standard_step_size"] = case["std"]
     SimulationContext._clear_context_cache()
     mode = case["mode"]
     out = {"error": None}
@@ -196,12 +200,13 @@ class C08(Prop):
             st = rng.randint(0, 5)
             h = rng.randint(1, 4)
             en = st + rng.randint(0, 13)
-            return {"clock": "simple", "start": st, "stop": en, "step": h, "comps": comps, "mode": mode, "pop": pop}
+            std = rng.choice([None, None, h, h + rng.randint(1, 3), max(1, h - 1)])
+            return {"clock": "simple", "start": st, "stop": en, "step": h, "std": std, "comps": comps, "mode": mode, "pop": pop}
         num, den = rng.choice([(1, 1), (1, 2), (9, 4), (61, 2), (7, 1), (3, 8), (1, 3), (5, 1), (10, 3),
                                (1, 16), (3, 32), (3, 10), (1, 10), (13, 10), (7, 10), (13, 50), (21, 16)])
         days = rng.randint(0, 40)
         return {"clock": "datetime", "start": [2020, 1, 1], "stop": [2020, 1 + days // 28, 1 + days % 28],
-                "step": [num, den], "comps": comps, "mode": mode, "pop": pop}
+                "step": [num, den], "std": rng.choice([None, None, None, 2, 5]), "comps": comps, "mode": mode, "pop": pop}
 
     def boundary(self):
         lid = [0]
@@ -213,6 +218,9 @@ class C08(Prop):
             out.append({"clock": "simple", "start": 2, "stop": 8, "step": 2, "comps": comps, "mode": mode, "pop": 1})    # exact multiple
             out.append({"clock": "datetime", "start": [2020, 1, 1], "stop": [2020, 1, 4], "step": [1, 2], "comps": comps, "mode": mode, "pop": 2})
         out.append({"clock": "simple", "start": 5, "stop": 5, "step": 1, "comps": comps, "mode": "run_simulation", "pop": 2})   # nothing to do
+        for mode in ("run_simulation", "interactive_run"):     # the clock's step is the STANDARD step, not the minimum one
+            out.append({"clock": "simple", "start": 0, "stop": 10, "step": 1, "std": 3, "comps": comps[:1], "mode": mode, "pop": 2})
+            out.append({"clock": "simple", "start": 2, "stop": 11, "step": 2, "std": 1, "comps": comps[:1], "mode": mode, "pop": 1})
         for st in ([1, 16], [3, 10], [13, 10], [1, 10]):      # day fractions that are not a whole number of hours
             out.append({"clock": "datetime", "start": [2020, 1, 1], "stop": [2020, 1, 3], "step": st, "comps": comps[:1],
                         "mode": "run_simulation", "pop": 1})
@@ -223,6 +231,8 @@ class C08(Prop):
         return out
 
     def shrink(self, case):
+        if case.get("std"):
+            yield dict(case, std=None)
         if len(case["comps"]) > 1:
             for i in range(len(case["comps"])):
                 yield dict(case, comps=case["comps"][:i] + case["comps"][i + 1:])
@@ -296,6 +306,19 @@ class C08(Prop):
         t0, stop, h = obs["t0"], obs["stop"], obs["h"]
         if h <= 0:
             return [{"sig": "nonpositive-step", "msg": str(h)}]
+        # start, end and step as CONFIGURED (not as read back from the clock)
+        if case["clock"] == "simple":
+            want_t0, want_stop, want_h = case["start"], case["stop"], (case.get("std") or case["step"])
+            if (t0, stop, h) != (want_t0, want_stop, want_h):
+                f.append({"sig": "configured-times", "msg": f"clock after creation {t0}, stop {stop}, step {h}; configured start {want_t0}, "
+                          f"end {want_stop}, step {want_h}"})
+        else:
+            import datetime
+            epoch = datetime.datetime(1970, 1, 1)
+            want_t0 = int((datetime.datetime(*case["start"]) - epoch).total_seconds()) * 1_000_000_000
+            want_stop = int((datetime.datetime(*case["stop"]) - epoch).total_seconds()) * 1_000_000_000
+            if (t0, stop) != (want_t0, want_stop):
+                f.append({"sig": "configured-times", "msg": f"clock after creation {t0}, stop {stop}; configured start {want_t0}, end {want_stop}"})
         # configuration -> step conversion on exactly representable day fractions
         if case["clock"] == "datetime":
             num, den = case["step"]
@@ -343,7 +366,7 @@ class C08(Prop):
         return any(len({p for c, p, _ in regs if c == ch}) > 1 for ch in CH)
 
     def tags(self, case, obs):
-        t = [case["clock"], case["mode"], f"pop{case['pop']}"]
+        t = [case["clock"], case["mode"], f"pop{case['pop']}", "standard-step-set" if case.get("std") else "standard-step-unset"]
         if obs.get("t0") is not None and obs["h"] > 0:
             n = max(0, math.ceil(Fraction(obs["stop"] - obs["t0"], obs["h"])))
             t.append("steps:" + ("0" if n == 0 else "1" if n == 1 else "2-5" if n <= 5 else "6+"))
